@@ -53,7 +53,8 @@ type xField struct {
 	Values []xValue `xml:"value"`
 }
 type xValue struct {
-	Enum string `xml:"enum,attr"`
+	Enum        string `xml:"enum,attr"`
+	Description string `xml:"description,attr"`
 }
 type xTypes struct {
 	Types []struct {
@@ -81,6 +82,7 @@ type Owner struct {
 	Skip    bool     `json:"skipExcluded"` // excluded framing fields are not members (components, header, trailer)
 }
 type Schema struct {
+	Enums    [][2]string `json:"enums"`  // constant name, value
 	Fields   [][2]string `json:"fields"` // name, number
 	Owners   []Owner     `json:"owners"`
 	DupField bool        `json:"dupFieldNumber"`
@@ -324,7 +326,7 @@ func buildSchema(doc *xDoc, types *xTypes) Schema {
 		cast[t.Name] = t.Cast
 	}
 	fields := map[string]xField{}
-	s := Schema{Fields: [][2]string{}, Owners: []Owner{}}
+	s := Schema{Fields: [][2]string{}, Owners: []Owner{}, Enums: [][2]string{}}
 	seenNum := map[string]bool{}
 	for _, f := range doc.Fields {
 		fields[f.Name] = f
@@ -333,6 +335,22 @@ func buildSchema(doc *xDoc, types *xTypes) Schema {
 			s.DupField = true
 		}
 		seenNum[f.Number] = true
+		if len(f.Values) > 0 && cast[f.Type] != "Bool" {
+			// naming rule of enumeration constants: Enum<Field><Description words capitalised>
+			for _, v := range f.Values {
+				name := ""
+				for _, part := range strings.Split(v.Description, "_") {
+					if part == "" {
+						name = ""
+						break
+					}
+					name += part[:1] + strings.ToLower(part)[1:]
+				}
+				if name != "" {
+					s.Enums = append(s.Enums, [2]string{"Enum" + f.Name + name, v.Enum})
+				}
+			}
+		}
 	}
 	fixTypeOf := func(name string) string {
 		f, ok := fields[name]
